@@ -8,10 +8,14 @@ from oracle import hostile as H
 ID = "C01"
 LEVEL = "proof"
 DESIGN_REF = "DESIGN.md §9 C01, §12.C01"
-COQ_TARGETS = []
-THEOREMS = []
-ANCHORS = []
-MODES = []
+COQ_TARGETS = ["Properties/C01", "Pins/C01"]
+THEOREMS = [("PdfV.Properties.C01", n) for n in
+            ["C01_lexer_step", "C01_lex_total", "C01_string_lex_total", "C01_hexstring_lex_total", "C01_parse_total", "C01_parse_progress",
+             "C01_parse_fuel_linear", "C01_parse_indirect_total", "C01_parse_seq_total", "C01_decode_hex_total", "C01_decode_85_total",
+             "C01_rle_terminates", "C01_rle_total_on_complete", "C01_rle_panic_sites", "C01_rle_refuted", "C01_full_statement_refuted"]]
+ANCHORS = ["lexer/", "parser/", "enc.rs"]
+MODES = ["lex", "strlex", "hexlex", "parse", "parse_seq", "parse_indirect", "hexdec", "a85dec", "rledec"]
+MODEL_TIMEOUT = 30.0
 CASE_TIMEOUT = 120
 TRUSTED_BASE = ["coqc 8.16.1 kernel (front-end theorems, once listed in THEOREMS)",
                 "harness pdfh (Rust): mode `walk` re-executes itself under /usr/bin/prlimit (8 MiB stack, 4 GiB address space, CPU limit 5 s + 2 us/byte), "
@@ -42,7 +46,7 @@ def _case(data, cfg, tags, kind="structured", note=""):
     return Case("walk", [cfg[0], cfg[1], data], model=False, tags=tags, kind=kind, note=note)
 
 
-def generate(rng, tier):
+def _walk_generate(rng, tier):
     quick = tier == "quick"
     corpus = H.corpus_files()
     blobs = [b for _, b in corpus]
@@ -105,7 +109,7 @@ def generate(rng, tier):
 
 
 def nontrivial(c):
-    return len(c.fields[2]) >= 16
+    return len(c.fields[2]) >= 16 if c.mode == "walk" else sum(len(f) for f in c.fields) >= 2
 
 
 def _status(result):
@@ -116,7 +120,7 @@ def _status(result):
 
 def always(case, result):
     if case.mode != "walk":
-        return None
+        return ("%s %s" % (result[0], result[1])) if result[0] in ("PANIC", "ABORT", "TIMEOUT") else None
     st = _status(result)
     return None if st == "CLEAN" else st
 
@@ -155,6 +159,11 @@ def _match(line):
 
 
 def classify(case, impl, model):
+    if case.mode != "walk":
+        # front-end modes: the only listed panic is RunLength's (C01-a), the sites the model predicts (102 / 103)
+        if case.mode == "rledec" and impl[0] == "PANIC" and "enc.rs" in impl[1] and model is not None and model[0] == "PANIC":
+            return "C01-a"
+        return None
     lines = _lines(impl)
     ids = [_match(l) for l in lines]
     # a hang that follows a caught panic is attributable (to the entry marked after_panic) only if a panic precedes it
@@ -206,3 +215,72 @@ def coverage_extra(cases, impl, model):
     top = sorted(call_hist.items(), key=lambda kv: -sum(kv[1]))[:120]
     return {"walk_calls": calls, "panic_sites": dict(sorted(sites.items())), "status_hist": status_hist,
             "call_hist": {k: {"ok": v[0], "err": v[1], "panic": v[2], "cases": reached[k]} for k, v in top}}
+
+
+# ---- the proved half, tied to the code: arbitrary bytes through the front-end entry points, implementation against the Coq models
+#      (Lex/Syn/Codec) whose totality Properties/C01.v proves; judged by `no panic / abort / time-out` and by equality with the model
+_SOUP = [b"<<", b">>", b"[", b"]", b"(", b")", b"<", b">", b"/", b"/Na#6de", b"/A#", b"#", b"%c\n", b"%c\r", b"\\", b"\\(", b"\\12", b"\\r\n", b"R", b"obj", b"endobj",
+         b"stream\n", b"stream\r\n", b"endstream", b"/Length", b"1", b"0", b"-1", b"+7", b"2147483648", b"99999999999999999999", b"1.5", b"-.5", b".", b"-",
+         b"true", b"false", b"null", b"4E", b"~>", b"z", b"\x00", b"\x0c", b" ", b"\n", b"\r", b"\t", b"\xff", b"\x80"]
+
+
+def _soup(rng, n):
+    out = bytearray()
+    for _ in range(n):
+        r = rng.random()
+        if r < 0.7:
+            out += rng.choice(_SOUP)
+        elif r < 0.85:
+            out += bytes([rng.randrange(256)])
+        else:
+            out += rng.choice([b" ", b"\n", b""])
+        if rng.random() < 0.5:
+            out += b" "
+    return bytes(out)
+
+
+def front_cases(rng, tier):
+    n = 450 if tier == "quick" else 6000
+    datas = [b"", b"(", b"<", b"<<", b"[", b"/", b"#", b"%", b"\\", b"(\\", b"<4", b"1 0 obj", b"1 0 obj <<>> stream\n", b"[" * 30, b"<<" * 30, b"(" * 40 + b")" * 39]
+    for i in range(n):
+        k = rng.choice([1, 2, 3, 5, 8, 13, 30, 80])
+        datas.append(_soup(rng, k) if i % 4 else bytes(rng.randrange(256) for _ in range(k)))
+    for d in datas:
+        yield Case("lex", [d], tags=["front:lex"], kind="malformed")
+        yield Case("parse", [rng.choice([b"1023", b"1023", b"4", b"32", b"512", b"0"]), d, b""], tags=["front:parse"], kind="malformed")
+        yield Case("parse_seq", [d], tags=["front:parse_seq"], kind="malformed")
+        yield Case("parse_indirect", [rng.choice([b"s", b"t"]), rng.choice([b"", b"1 0 obj ", b"7 0 obj\n"]) + d, rng.choice([b"", b"9:3", b"9:-1"])], tags=["front:indirect"], kind="malformed")
+        yield Case("strlex", [d], tags=["front:strlex"], kind="malformed")
+        yield Case("hexlex", [d], tags=["front:hexlex"], kind="malformed")
+        yield Case("hexdec", [d], tags=["front:hexdec"], kind="malformed")
+        yield Case("a85dec", [d], tags=["front:a85dec"], kind="malformed")
+        yield Case("rledec", [d], tags=["front:rledec"], kind="malformed")
+
+
+def generate(rng, tier):
+    for c in front_cases(rng, tier):
+        yield c
+    for c in _walk_generate(rng, tier):
+        yield c
+
+
+# model results carry reals as the decimal text handed to str::parse::<f32>: D<text>; -> r<bits> (as in props/C03)
+from vplib.api import same_result
+from oracle import f32 as _f32
+_REAL_RE = re.compile(rb"D([^;]*);")
+
+
+def _norm(r):
+    if r is None or r[0] != "OK":
+        return r
+
+    def sub(m):
+        try:
+            return b"r%08x" % _f32.dec_to_bits(m.group(1).decode("latin-1"))
+        except Exception:
+            return m.group(0)
+    return ("OK", [_REAL_RE.sub(sub, f) for f in r[1]])
+
+
+def same(a, b):
+    return same_result(_norm(a), _norm(b))
